@@ -79,3 +79,24 @@ def bkey(b):
 
 
 def idents(P): return [t for t in P.toks if t.kind == "id"]
+
+
+def proc_of_tokens(P):
+    """token uid -> enclosing procedure declaration"""
+    m = {}
+    for p in P.procs:
+        for t in gen.walk_toks(p.node): m[t.uid] = p
+    return m
+
+
+def shadowing_local(P, tok, pmap_=None):
+    """Known-finding class K-C1x-shadow: an identifier in *type position* (bound to a type declaration) inside a procedure that has a
+    parameter or local variable of the same name. SPL resolves parameter types in the global scope, so the occurrence denotes the
+    type; the request handlers look every identifier up locals-first and answer for the local. Returns that local, or None."""
+    if tok.kind != "id" or not isinstance(tok.bind, gen.Decl) or tok.bind.kind != "type": return None
+    pm = pmap_ if pmap_ is not None else proc_of_tokens(P)
+    p = pm.get(tok.uid)
+    if p is None: return None
+    for v in p.params + p.locals:
+        if v.name == tok.text: return v
+    return None
